@@ -35,7 +35,9 @@ def _field_options(R0, R1, Leaf):
 def hierarchies(limit=None, stride=1):
     count = 0
     n = 0
-    for nested in (False, True):
+    # "omit": nested, but the intermediate abstract class is not in the supplied list (it is then
+    # only known through the supplied classes below it, or through a field that names it)
+    for nested in (False, True, "omit"):
         for (p1, p2) in itertools.product((0, 1), repeat=2):
             for (f1, f2) in itertools.product(range(12), repeat=2):
                 n += 1
@@ -52,8 +54,8 @@ def hierarchies(limit=None, stride=1):
                 P2 = make_dataclass("P2", list(opts[f2]), bases=((R0, R1)[p2],))
                 for c in (R0, R1, Leaf, P1, P2):
                     c.__module__ = __name__
-                classes = [Leaf, P1, P2] + ([R1] if nested else [])
-                yield (f"fam[nested={int(nested)},parents={p1}{p2},fields={f1},{f2}]", classes, R0)
+                classes = [Leaf, P1, P2] + ([R1] if nested is True else [])
+                yield (f"fam[nested={nested if nested == 'omit' else int(nested)},parents={p1}{p2},fields={f1},{f2}]", classes, R0)
                 count += 1
                 if limit and count >= limit:
                     return
